@@ -1,12 +1,539 @@
-//! Extension module (Tier A): owner fills in. Output: coq/gen/SchedRunFacts.v
+//! Extension module (Tier A) for C10. Output: coq/gen/SchedRunFacts.v
 //! Contract: return (text of the .v file, report lines). Each report line is one JSON object
 //! {"item":"SchedRunFacts.<name>","file":"<rust file>","ok":true|false[,"error":"..."]}.
 //! Fail closed: when a site is not recognised, OMIT the Gallina definition (so dependent proofs stop
 //! compiling) and push an ok:false report line.
+//!
+//! Items (all read from the Rust source on every run; expressions are translated structurally, so
+//! a changed Rust expression gives a changed Gallina definition or a failed item):
+//!   desugar_run          src/ast/parse.rs `parse_command`, arms "run" and "run-schedule": the schedule
+//!                        built by `(run R n :until ..)` (Repeat n (Run cfg)) and `(run-schedule ..)`
+//!   desugar_schedule     src/ast/parse.rs `parse_schedule`: bare atom, saturate, seq, repeat, run
+//!   table_merge_changed  core-relations/src/free_join/mod.rs `merge_all` (2 sites) + `merge_simple`
+//!                        (1 site): which results of a table merge feed the database `changed` flag
+//!   merge_callback_changed  egglog-bridge/src/lib.rs `MergeFn::to_callback`: `changed |= cur != out`
+//!                        for the return-value column and for the subsume column
+//!   iteration_changed    egglog-reports `IterationReport::changed`, `RunReport::singleton`
+//!                        (`updated = iteration.changed(); can_stop = !updated`) and egglog-bridge
+//!                        `run_rules_inner` (the report is the one of `run_rules_impl`; nothing that
+//!                        follows -- the rebuild -- assigns to a `changed`)
+//!   rebuild_needed       egglog-bridge `run_rules_inner`: the rebuild is skipped iff
+//!                        `uf_size_before == uf_size_after`
+use quote::ToTokens;
+use std::path::Path;
+use syn::visit::Visit;
 
-pub fn generate(_repo: &std::path::Path) -> (String, Vec<String>) {
-    (
-        "(* GENERATED by /verif/translator (x_schedrun.rs): nothing extracted yet *)\n".to_string(),
-        Vec::new(),
-    )
+const PARSE: &str = "src/ast/parse.rs";
+const FJ: &str = "core-relations/src/free_join/mod.rs";
+const BRIDGE: &str = "egglog-bridge/src/lib.rs";
+const REPORTS: &str = "egglog-reports/src/lib.rs";
+
+fn toks<T: ToTokens>(t: &T) -> String {
+    t.to_token_stream().to_string().chars().filter(|c| !c.is_whitespace()).collect()
+}
+
+fn parse(repo: &Path, rel: &str) -> Result<syn::File, String> {
+    let src = std::fs::read_to_string(repo.join(rel)).map_err(|e| format!("{rel}: {e}"))?;
+    syn::parse_file(&src).map_err(|e| format!("{rel}: {e}"))
+}
+
+/// all functions (free or in impls) called `name`, outside #[cfg(test)] modules
+fn find_fns(file: &syn::File, name: &str) -> Vec<syn::Block> {
+    struct F<'n> {
+        name: &'n str,
+        found: Vec<syn::Block>,
+    }
+    impl<'ast, 'n> Visit<'ast> for F<'n> {
+        fn visit_impl_item_fn(&mut self, f: &'ast syn::ImplItemFn) {
+            if f.sig.ident == self.name {
+                self.found.push(f.block.clone());
+            }
+            syn::visit::visit_impl_item_fn(self, f);
+        }
+        fn visit_item_fn(&mut self, f: &'ast syn::ItemFn) {
+            if f.sig.ident == self.name {
+                self.found.push((*f.block).clone());
+            }
+            syn::visit::visit_item_fn(self, f);
+        }
+        fn visit_item_mod(&mut self, m: &'ast syn::ItemMod) {
+            if m.attrs.iter().any(|a| toks(a).contains("test")) {
+                return;
+            }
+            syn::visit::visit_item_mod(self, m);
+        }
+    }
+    let mut v = F { name, found: vec![] };
+    v.visit_file(file);
+    v.found
+}
+
+fn one_fn(file: &syn::File, name: &str) -> Result<syn::Block, String> {
+    let mut v = find_fns(file, name);
+    if v.len() != 1 {
+        return Err(format!("expected exactly one fn {name}, found {}", v.len()));
+    }
+    Ok(v.remove(0))
+}
+
+// ---------------------------------------------------------------------------------------------
+// schedule-building expressions
+
+/// `Schedule::Repeat(span, limit, Box::new(..))` etc. -> Gallina over Sched/Syntax.v
+fn sched_expr(e: &syn::Expr) -> Result<String, String> {
+    use syn::Expr;
+    match e {
+        Expr::Paren(p) => sched_expr(&p.expr),
+        Expr::Path(p) => {
+            let s = toks(p);
+            if s == "None" || p.path.get_ident().is_some() {
+                Ok(s)
+            } else {
+                Err(format!("unexpected path {s}"))
+            }
+        }
+        Expr::MethodCall(m) if m.method == "clone" && m.args.is_empty() => sched_expr(&m.receiver),
+        Expr::Try(t) => {
+            // map_fallible(tail, self, Self::parse_schedule)?  -> the list `tail` of parsed schedules
+            let s = toks(&t.expr);
+            if let Some(rest) = s.strip_prefix("map_fallible(") {
+                if let Some(var) = rest.strip_suffix(",self,Self::parse_schedule)") {
+                    if var.chars().all(|c| c.is_alphanumeric() || c == '_') {
+                        return Ok(var.to_string());
+                    }
+                }
+            }
+            Err(format!("unexpected fallible expression {s}"))
+        }
+        Expr::Call(c) => {
+            let f = toks(&c.func);
+            let args: Vec<&syn::Expr> = c.args.iter().collect();
+            match (f.as_str(), args.len()) {
+                ("Box::new", 1) => sched_expr(args[0]),
+                ("Schedule::Repeat", 3) => Ok(format!("(Repeat {} {})", sched_expr(args[1])?, sched_expr(args[2])?)),
+                ("Schedule::Saturate", 2) => Ok(format!("(Saturate {})", sched_expr(args[1])?)),
+                ("Schedule::Sequence", 2) => Ok(format!("(Sequence {})", sched_expr(args[1])?)),
+                ("Schedule::Run", 2) => Ok(format!("(Run {})", sched_expr(args[1])?)),
+                _ => Err(format!("unexpected call {f}/{}", args.len())),
+            }
+        }
+        Expr::Struct(s) => {
+            if toks(&s.path) != "RunConfig" || s.rest.is_some() || s.fields.len() != 2 {
+                return Err(format!("unexpected struct literal {}", toks(s)));
+            }
+            let mut rs = None;
+            let mut un = None;
+            for f in &s.fields {
+                let name = toks(&f.member);
+                let v = sched_expr(&f.expr)?;
+                match name.as_str() {
+                    "ruleset" => rs = Some(v),
+                    "until" => un = Some(v),
+                    _ => return Err(format!("unexpected RunConfig field {name}")),
+                }
+            }
+            Ok(format!("(mkConfig {} {})", rs.ok_or("no ruleset")?, un.ok_or("no until")?))
+        }
+        other => Err(format!("unexpected schedule expression {}", toks(other))),
+    }
+}
+
+/// the arm `"<head>" => body` of the (first) `match head.as_str()` of a function
+fn head_arm(block: &syn::Block, head: &str) -> Result<syn::Expr, String> {
+    struct M {
+        arms: Vec<syn::Arm>,
+    }
+    impl<'ast> Visit<'ast> for M {
+        fn visit_expr_match(&mut self, m: &'ast syn::ExprMatch) {
+            if self.arms.is_empty() && toks(&m.expr) == "head.as_str()" {
+                self.arms = m.arms.clone();
+                return;
+            }
+            syn::visit::visit_expr_match(self, m);
+        }
+    }
+    let mut v = M { arms: vec![] };
+    v.visit_block(block);
+    let want = format!("\"{head}\"");
+    let found: Vec<&syn::Arm> = v.arms.iter().filter(|a| toks(&a.pat) == want && a.guard.is_none()).collect();
+    if found.len() != 1 {
+        return Err(format!("expected one arm {want}, found {}", found.len()));
+    }
+    Ok((*found[0].body).clone())
+}
+
+/// value of an arm: the tail expression of a block body, or the body itself
+fn tail_expr(e: &syn::Expr) -> Result<syn::Expr, String> {
+    match e {
+        syn::Expr::Block(b) => match b.block.stmts.last() {
+            Some(syn::Stmt::Expr(x, None)) => Ok(x.clone()),
+            _ => Err("block without tail expression".into()),
+        },
+        other => Ok(other.clone()),
+    }
+}
+
+/// `vec![Command::RunSchedule(<sched>)]` -> <sched>
+fn run_schedule_vec(e: &syn::Expr) -> Result<syn::Expr, String> {
+    let mac = match e {
+        syn::Expr::Macro(m) if toks(&m.mac.path) == "vec" => &m.mac,
+        other => return Err(format!("expected vec![..], found {}", toks(other))),
+    };
+    let items = mac
+        .parse_body_with(syn::punctuated::Punctuated::<syn::Expr, syn::Token![,]>::parse_terminated)
+        .map_err(|e| format!("vec! body: {e}"))?;
+    if items.len() != 1 {
+        return Err("vec! with more than one command".into());
+    }
+    match &items[0] {
+        syn::Expr::Call(c) if toks(&c.func) == "Command::RunSchedule" && c.args.len() == 1 => Ok(c.args[0].clone()),
+        other => Err(format!("expected Command::RunSchedule(..), found {}", toks(other))),
+    }
+}
+
+fn until_binding_ok(body: &syn::Expr) -> Result<(), String> {
+    let s = toks(body);
+    let want = "letuntil=matchself.parse_options(rest)?.as_slice(){[]=>None,[(\":until\",facts)]=>Some(map_fallible(facts,self,Self::parse_fact)?),_=>returnerror!(span,\"couldnotparserunoptions\"),};";
+    if s.contains(want) {
+        Ok(())
+    } else {
+        Err("the `until` binding (match on parse_options: [] => None, [(\":until\", facts)] => Some(..)) was not recognised".into())
+    }
+}
+
+fn item_desugar_run(repo: &Path) -> Result<String, String> {
+    let file = parse(repo, PARSE)?;
+    let pc = one_fn(&file, "parse_command")?;
+    let run = head_arm(&pc, "run")?;
+    until_binding_ok(&run)?;
+    let s = toks(&run);
+    if !s.contains("tail[1].expect_uint(\"numberofiterations\")?") || !s.contains("tail[0].expect_uint(\"numberofiterations\")?") {
+        return Err("binding of `limit` not recognised".into());
+    }
+    let run_s = sched_expr(&run_schedule_vec(&tail_expr(&run)?)?)?;
+    let rs = head_arm(&pc, "run-schedule")?;
+    let rs_s = sched_expr(&run_schedule_vec(&tail_expr(&rs)?)?)?;
+    Ok(format!(
+        "(* parse_command, arm \"run\": (run R n :until f) *)\nDefinition desugar_run {{R F : Type}} (ruleset : R) (limit : nat) (until : option F) : schedule R F :=\n  {run_s}.\n\n(* parse_command, arm \"run-schedule\" *)\nDefinition desugar_run_schedule {{R F : Type}} (tail : list (schedule R F)) : schedule R F :=\n  {rs_s}.\n"
+    ))
+}
+
+fn item_desugar_schedule(repo: &Path) -> Result<String, String> {
+    let file = parse(repo, PARSE)?;
+    let ps = one_fn(&file, "parse_schedule")?;
+    // leading `if let Sexp::Atom(ruleset, span) = sexp { return Ok(Schedule::Run(..)); }`
+    let atom = match ps.stmts.first() {
+        Some(syn::Stmt::Expr(syn::Expr::If(i), _)) if toks(&i.cond) == "letSexp::Atom(ruleset,span)=sexp" && i.else_branch.is_none() => {
+            match i.then_branch.stmts.as_slice() {
+                [syn::Stmt::Expr(syn::Expr::Return(r), _)] => match r.expr.as_deref() {
+                    Some(syn::Expr::Call(c)) if toks(&c.func) == "Ok" && c.args.len() == 1 => sched_expr(&c.args[0])?,
+                    _ => return Err("atom case: return Ok(..) not recognised".into()),
+                },
+                _ => return Err("atom case: body not recognised".into()),
+            }
+        }
+        _ => return Err("atom case (if let Sexp::Atom ..) not recognised".into()),
+    };
+    let sat = sched_expr(&tail_expr(&head_arm(&ps, "saturate")?)?)?;
+    let seq = sched_expr(&tail_expr(&head_arm(&ps, "seq")?)?)?;
+    let rep = match head_arm(&ps, "repeat")? {
+        syn::Expr::Match(m) if toks(&m.expr) == "tail" => {
+            let arms: Vec<&syn::Arm> = m.arms.iter().filter(|a| toks(&a.pat) == "[limit,tail@..]").collect();
+            if arms.len() != 1 || m.arms.len() != 2 {
+                return Err("repeat: arms not recognised".into());
+            }
+            let b = toks(&arms[0].body);
+            if !b.contains("limit.expect_uint(\"numberofiterations\")?") {
+                return Err("repeat: limit not recognised".into());
+            }
+            // replace the parsed limit by the variable
+            let e: syn::Expr = syn::parse_str(&arms[0].body.to_token_stream().to_string().replace("limit . expect_uint (\"number of iterations\") ?", "limit"))
+                .map_err(|e| format!("repeat: {e}"))?;
+            sched_expr(&e)?
+        }
+        _ => return Err("repeat: match tail not recognised".into()),
+    };
+    let run = head_arm(&ps, "run")?;
+    until_binding_ok(&run)?;
+    let leaf = sched_expr(&tail_expr(&run)?)?;
+    Ok(format!(
+        "(* parse_schedule *)\nDefinition desugar_atom {{R F : Type}} (ruleset : R) : schedule R F :=\n  {atom}.\nDefinition desugar_saturate {{R F : Type}} (tail : list (schedule R F)) : schedule R F :=\n  {sat}.\nDefinition desugar_seq {{R F : Type}} (tail : list (schedule R F)) : schedule R F :=\n  {seq}.\nDefinition desugar_repeat {{R F : Type}} (limit : nat) (tail : list (schedule R F)) : schedule R F :=\n  {rep}.\nDefinition desugar_run_leaf {{R F : Type}} (ruleset : R) (until : option F) : schedule R F :=\n  {leaf}.\n"
+    ))
+}
+
+// ---------------------------------------------------------------------------------------------
+// the `changed` flag
+
+fn bool_expr(e: &syn::Expr) -> Result<String, String> {
+    use syn::Expr;
+    match e {
+        Expr::Paren(p) => bool_expr(&p.expr),
+        Expr::Binary(b) => match b.op {
+            syn::BinOp::Or(_) => Ok(format!("({} || {})", bool_expr(&b.left)?, bool_expr(&b.right)?)),
+            syn::BinOp::And(_) => Ok(format!("({} && {})", bool_expr(&b.left)?, bool_expr(&b.right)?)),
+            _ => Err(format!("unexpected operator in {}", toks(b))),
+        },
+        Expr::Unary(u) if matches!(u.op, syn::UnOp::Not(_)) => Ok(format!("(negb {})", bool_expr(&u.expr)?)),
+        Expr::Lit(l) => match toks(l).as_str() {
+            "true" => Ok("true".into()),
+            "false" => Ok("false".into()),
+            s => Err(format!("unexpected literal {s}")),
+        },
+        Expr::Field(f) => {
+            let base = toks(&f.base);
+            let m = toks(&f.member);
+            if base.ends_with(".table.merge(&mutes)") && (m == "added" || m == "removed") {
+                Ok(m)
+            } else if base == "es" && m == "changed" {
+                Ok("es_changed".into())
+            } else {
+                Err(format!("unexpected field access {}", toks(f)))
+            }
+        }
+        other => Err(format!("unexpected expression {}", toks(other))),
+    }
+}
+
+fn item_table_merge_changed(repo: &Path) -> Result<String, String> {
+    let file = parse(repo, FJ)?;
+    struct V {
+        found: Vec<syn::Expr>,
+    }
+    impl<'ast> Visit<'ast> for V {
+        fn visit_expr(&mut self, e: &'ast syn::Expr) {
+            // top-most boolean expression that mentions a table merge
+            let is_bool = match e {
+                syn::Expr::Binary(b) => matches!(b.op, syn::BinOp::Or(_) | syn::BinOp::And(_)),
+                syn::Expr::Field(_) => true,
+                syn::Expr::Unary(u) => matches!(u.op, syn::UnOp::Not(_)),
+                _ => false,
+            };
+            if is_bool && toks(e).contains(".merge(&mutes)") {
+                self.found.push(e.clone());
+                return;
+            }
+            // any other use of a table merge result must be seen as well
+            if let syn::Expr::MethodCall(m) = e {
+                if m.method == "merge" && toks(&m.args) == "&mutes" {
+                    self.found.push(e.clone());
+                    return;
+                }
+            }
+            syn::visit::visit_expr(self, e);
+        }
+    }
+    let mut all = vec![];
+    for (name, n) in [("merge_all", 2usize), ("merge_simple", 1usize)] {
+        let b = one_fn(&file, name)?;
+        let mut v = V { found: vec![] };
+        v.visit_block(&b);
+        if v.found.len() != n {
+            return Err(format!("{name}: expected {n} uses of a table merge result, found {}", v.found.len()));
+        }
+        all.extend(v.found);
+    }
+    let tr: Vec<String> = all.iter().map(bool_expr).collect::<Result<_, _>>()?;
+    if tr.iter().any(|t| *t != tr[0]) {
+        return Err(format!("the merge sites disagree: {tr:?}"));
+    }
+    // the site of merge_simple must be `changed |= ..` and merge_all must or the results together
+    let ms = toks(&one_fn(&file, "merge_simple")?);
+    if !ms.contains("changed|=info.table.merge(&mutes)") || !ms.ends_with("changed}") {
+        return Err("merge_simple: accumulation into `changed` not recognised".into());
+    }
+    let ma = toks(&one_fn(&file, "merge_all")?);
+    for w in ["ever_changed|=self.merge_simple(", "ever_changed|=changed;", ".any(|changed|changed)", ".max().unwrap_or(false)"] {
+        if !ma.contains(w) {
+            return Err(format!("merge_all: `{w}` not found"));
+        }
+    }
+    if !ma.ends_with("ever_changed}") {
+        return Err("merge_all: does not return ever_changed".into());
+    }
+    Ok(format!(
+        "(* merge_all / merge_simple: what one table merge contributes to the database `changed` flag *)\nDefinition table_merge_changed (added removed es_changed : bool) : bool :=\n  {}.\n",
+        tr[0]
+    ))
+}
+
+fn item_merge_callback_changed(repo: &Path) -> Result<String, String> {
+    let file = parse(repo, BRIDGE)?;
+    let b = one_fn(&file, "to_callback")?;
+    let s = toks(&b);
+    for w in ["letmutchanged=false;", "letout=resolved.run(state,cur,new,timestamp);", "letout=combine_subsumed(cur,new);", "ifchanged{", "changed})}"] {
+        if !s.contains(w) {
+            return Err(format!("to_callback: `{w}` not found"));
+        }
+    }
+    struct V {
+        found: Vec<syn::Expr>,
+        other: usize,
+    }
+    impl<'ast> Visit<'ast> for V {
+        fn visit_expr_binary(&mut self, e: &'ast syn::ExprBinary) {
+            if toks(&e.left) == "changed" {
+                if matches!(e.op, syn::BinOp::BitOrAssign(_)) {
+                    self.found.push((*e.right).clone());
+                } else {
+                    self.other += 1;
+                }
+            }
+            syn::visit::visit_expr_binary(self, e);
+        }
+        fn visit_expr_assign(&mut self, e: &'ast syn::ExprAssign) {
+            if toks(&e.left).contains("changed") {
+                self.other += 1;
+            }
+            syn::visit::visit_expr_assign(self, e);
+        }
+    }
+    let mut v = V { found: vec![], other: 0 };
+    v.visit_block(&b);
+    if v.found.len() != 2 || v.other != 0 {
+        return Err(format!("to_callback: expected two `changed |= ..` and no other update, found {} / {}", v.found.len(), v.other));
+    }
+    // the first one must sit in the ret_val block, the second in the subsume closure
+    let p1 = s.find("letret_val={").ok_or("ret_val block not found")?;
+    let p2 = s.find("letsubsume=schema_math.subsume.then(||{").ok_or("subsume closure not found")?;
+    let c1 = s.find("changed|=").ok_or("no update")?;
+    let c2 = s.rfind("changed|=").ok_or("no update")?;
+    if !(p1 < c1 && c1 < p2 && p2 < c2) {
+        return Err("to_callback: the updates of `changed` are not in the ret_val block / subsume closure".into());
+    }
+    let cmp = |e: &syn::Expr, f: &str, pre: &str| -> Result<String, String> {
+        match e {
+            syn::Expr::Binary(b) if toks(&b.left) == "cur" && toks(&b.right) == "out" => match b.op {
+                syn::BinOp::Ne(_) => Ok(format!("{f} {pre}_cur {pre}_out")),
+                syn::BinOp::Eq(_) => Ok(format!("negb ({f} {pre}_cur {pre}_out)")),
+                _ => Err(format!("unexpected comparison {}", toks(b))),
+            },
+            other => Err(format!("unexpected update {}", toks(other))),
+        }
+    };
+    let a = cmp(&v.found[0], "vneq", "ret")?;
+    let c = cmp(&v.found[1], "wneq", "sub")?;
+    Ok(format!(
+        "(* MergeFn::to_callback: the merge of a colliding row reports a change iff the merged return\n   value differs from the stored one or the combined subsume flag differs from the stored one *)\nDefinition merge_callback_changed {{V W : Type}} (vneq : V -> V -> bool) (wneq : W -> W -> bool)\n    (ret_cur ret_out : V) (sub_cur sub_out : W) : bool :=\n  ((false || {a}) || {c}).\n"
+    ))
+}
+
+fn item_iteration_changed(repo: &Path) -> Result<String, String> {
+    let rep = parse(repo, REPORTS)?;
+    // IterationReport::changed (the only fn `changed` with a bool result in the reports crate)
+    let ch = find_fns(&rep, "changed");
+    if ch.len() != 1 || toks(&ch[0]) != "{self.rule_set_report.changed}" {
+        return Err("IterationReport::changed is not `self.rule_set_report.changed`".into());
+    }
+    let sg = toks(&one_fn(&rep, "singleton")?);
+    for w in ["report.updated=iteration.changed();", "report.can_stop=!report.updated;"] {
+        if !sg.contains(w) {
+            return Err(format!("RunReport::singleton: `{w}` not found"));
+        }
+    }
+    let br = parse(repo, BRIDGE)?;
+    let b = one_fn(&br, "run_rules_inner")?;
+    let s = toks(&b);
+    for w in ["letrule_set_report=run_rules_impl(", "IterationReport{rule_set_report,rebuild_time:Duration::ZERO", "Ok(iteration_report)}"] {
+        if !s.contains(w) {
+            return Err(format!("run_rules_inner: `{w}` not found"));
+        }
+    }
+    struct V {
+        bad: Vec<String>,
+    }
+    impl<'ast> Visit<'ast> for V {
+        fn visit_expr_assign(&mut self, e: &'ast syn::ExprAssign) {
+            let l = toks(&e.left);
+            if l.contains("changed") || l.contains("rule_set_report") {
+                self.bad.push(l);
+            }
+            syn::visit::visit_expr_assign(self, e);
+        }
+        fn visit_expr_binary(&mut self, e: &'ast syn::ExprBinary) {
+            let is_assign = matches!(
+                e.op,
+                syn::BinOp::BitOrAssign(_) | syn::BinOp::BitAndAssign(_) | syn::BinOp::BitXorAssign(_) | syn::BinOp::AddAssign(_)
+            );
+            let l = toks(&e.left);
+            if is_assign && (l.contains("changed") || l.contains("rule_set_report")) {
+                self.bad.push(l);
+            }
+            syn::visit::visit_expr_binary(self, e);
+        }
+    }
+    let mut v = V { bad: vec![] };
+    v.visit_block(&b);
+    if !v.bad.is_empty() {
+        return Err(format!("run_rules_inner assigns to {:?}", v.bad));
+    }
+    Ok("(* IterationReport::changed = rule_set_report.changed; run_rules_inner reports the flag of\n   run_rules_impl and nothing after it (the rebuild) assigns to it; RunReport::singleton sets\n   updated = changed, can_stop = not updated *)\nDefinition iteration_changed (rule_set_changed rebuild_changed : bool) : bool :=\n  rule_set_changed.\n".to_string())
+}
+
+fn item_rebuild_needed(repo: &Path) -> Result<String, String> {
+    let br = parse(repo, BRIDGE)?;
+    let b = one_fn(&br, "run_rules_inner")?;
+    let s = toks(&b);
+    for w in ["letuf_size_before=self.db.get_table(self.uf_table).len();", "letuf_size_after=self.db.get_table(self.uf_table).len();"] {
+        if !s.contains(w) {
+            return Err(format!("run_rules_inner: `{w}` not found"));
+        }
+    }
+    // the `if <cond> { self.inc_ts(); return Ok(iteration_report); }` statement
+    let mut cond = None;
+    for st in &b.stmts {
+        if let syn::Stmt::Expr(syn::Expr::If(i), _) = st {
+            if toks(&i.then_branch).ends_with("self.inc_ts();returnOk(iteration_report);}") && i.else_branch.is_none() {
+                cond = Some((*i.cond).clone());
+            }
+        }
+    }
+    let cond = cond.ok_or("early return (no rebuild) not found")?;
+    let g = match &cond {
+        syn::Expr::Binary(bn) => {
+            let (l, r) = (toks(&bn.left), toks(&bn.right));
+            let names = ["uf_size_before", "uf_size_after"];
+            if !names.contains(&l.as_str()) || !names.contains(&r.as_str()) || l == r {
+                return Err(format!("unexpected condition {}", toks(bn)));
+            }
+            match bn.op {
+                syn::BinOp::Eq(_) => format!("negb ({l} =? {r})"),
+                syn::BinOp::Ne(_) => format!("negb (negb ({l} =? {r}))"),
+                _ => return Err(format!("unexpected condition {}", toks(bn))),
+            }
+        }
+        other => return Err(format!("unexpected condition {}", toks(other))),
+    };
+    Ok(format!(
+        "(* run_rules_inner: the rebuild runs iff the union-find table grew during the iteration *)\nDefinition rebuild_needed (uf_size_before uf_size_after : nat) : bool :=\n  {g}.\n"
+    ))
+}
+
+pub fn generate(repo: &Path) -> (String, Vec<String>) {
+    let mut out = String::from(
+        "(* GENERATED by /verif/translator (x_schedrun.rs) from /repo/src/ast/parse.rs, /repo/core-relations/src/free_join/mod.rs, /repo/egglog-bridge/src/lib.rs, /repo/egglog-reports/src/lib.rs -- do not edit *)\nFrom Coq Require Import List Arith PeanoNat Bool.\nImport ListNotations.\nRequire Import Verif.Sched.Syntax.\n\n",
+    );
+    let mut report = vec![];
+    let items: Vec<(&str, &str, fn(&Path) -> Result<String, String>)> = vec![
+        ("desugar_run", PARSE, item_desugar_run),
+        ("desugar_schedule", PARSE, item_desugar_schedule),
+        ("table_merge_changed", FJ, item_table_merge_changed),
+        ("merge_callback_changed", BRIDGE, item_merge_callback_changed),
+        ("iteration_changed", "egglog-reports/src/lib.rs + egglog-bridge/src/lib.rs", item_iteration_changed),
+        ("rebuild_needed", BRIDGE, item_rebuild_needed),
+    ];
+    for (name, file, f) in items {
+        match f(repo) {
+            Ok(text) => {
+                out.push_str(&text);
+                out.push('\n');
+                report.push(format!("{{\"item\":\"SchedRunFacts.{name}\",\"file\":\"{file}\",\"ok\":true}}"));
+            }
+            Err(e) => {
+                out.push_str(&format!("(* item {name} NOT regenerated *)\n\n"));
+                let e = e.replace('\\', "\\\\").replace('"', "\\\"");
+                report.push(format!("{{\"item\":\"SchedRunFacts.{name}\",\"file\":\"{file}\",\"ok\":false,\"error\":\"{e}\"}}"));
+            }
+        }
+    }
+    (out, report)
 }
